@@ -190,6 +190,7 @@ def rule_update(ctx: Ctx) -> RuleResult:
     stores = [n for n in own_nodes(f.node) if isinstance(n, ast.Assign) and isinstance(n.targets[0], ast.Subscript)]
     res.floor(len(stores), 1, "stores in query_helper.update")
     problems = []
+    kinds = set()  # the ways a store is reached, over all stores: by an existing key, by a value that is not optional
     for st in stores:
         tgt = st.targets[0]
         at = flow.node_of(st)
@@ -220,6 +221,7 @@ def rule_update(ctx: Ctx) -> RuleResult:
                                 flag_ok = True
             if has_in and flag_ok and isinstance(t, ast.BoolOp) and isinstance(t.op, ast.Or):
                 cond_ok = True
+                kinds.update(("in-data", "not-optional"))
         if not cond_ok:
             # the same decision in another spelling (De Morgan guard with `continue`, nested ifs ...): in every alternative under
             # which the store is reached, the key is in the data or the optional flag is off
@@ -246,11 +248,15 @@ def rule_update(ctx: Ctx) -> RuleResult:
                                 flag_off = True
                     if not (in_data or flag_off):
                         good_all = False
+                    kinds.add("in-data" if in_data else "not-optional" if flag_off else "other")
                 if good_all and any((f"{keytxt} in {dtxt}", True) in alt for alt in alts):
                     cond_ok = True
         if not cond_ok:
             problems.append(f"`{norm(st)}` is not under `key in data or not <optional>` with the optional flag taken from "
                             f"startswith(option_prefix)")
+    if not problems and not {"in-data", "not-optional"} <= kinds:
+        problems.append("a value is not stored in every case the rule names: an optional value for an existing key, and a plain value for any key "
+                        f"(cases found: {sorted(kinds)})")
     strip = any(isinstance(n, ast.Call) and isinstance(n.func, ast.Attribute) and n.func.attr in ("replace", "removeprefix", "lstrip")
                 and n.args and "option_prefix" in norm(n.args[0]) for n in own_nodes(f.node)) or any(
         isinstance(n, ast.Subscript) and isinstance(n.slice, ast.Slice) and "option_prefix" in norm(n.slice) for n in own_nodes(f.node))
